@@ -33,10 +33,9 @@ TERMINALS = {
 ALIASES = {"as_pandas": "AsPandasDF", "as_ROOT_tree": "AsROOTTTree", "as_parquet": "AsParquetFiles", "as_awkward": "AsAwkwardArray"}
 
 
-def check(run: Run) -> None:
-    m = run.model
-    for i, d in (("R1", "operator shape"), ("R2", "stage order"), ("R3", "sibling agreement of the three operators"), ("R4", "terminals, MetaData and aliases"), ("R5", "exports of func_adl.ast"), ("R6", "stage rule sets re-evaluated (rule ids of the stage are kept)")):
-        run.rule(f"C01.{i}", d)
+def check_plumbing(run: Run, m=None, relabel=None) -> None:
+    """R1-R3: what every operator call goes through (shared with the stage properties that rely on it)"""
+    m = m or run.model
     ctx = TermCtx(m, max_depth=2, opaque={"parse_as_ast", "resolve_syntatic_sugar", "remap_from_lambda", "check_ast", "as_ast", "unwrap_iterable", "clone_with_new_ast"})
     os_cls = m.find_class("ObjectStream", in_module="func_adl.object_stream")
     canon_terms = {}
@@ -82,6 +81,16 @@ def check(run: Run) -> None:
     sp = ("param", cw.pos_params[0])
     ok = crt[0] == "upd" and crt[1] == ("app", ("global", "copy.copy"), (sp,), ()) and dict(crt[2]) == {"_q_ast": ("param", cw.pos_params[1]), "_item_type": ("param", cw.pos_params[2])}
     run.check(ok, "C01.R1", cw, cw.node, "clone_with_new_ast == copy of self with the new ast and type", f"clone_with_new_ast returns {show(crt)[:140]}", term=show(crt))
+
+    return os_cls, ctx
+
+
+def check(run: Run) -> None:
+    m = run.model
+    for i, d in (("R1", "operator shape"), ("R2", "stage order"), ("R3", "sibling agreement of the three operators"), ("R4", "terminals, MetaData and aliases"), ("R5", "exports of func_adl.ast"), ("R6", "stage rule sets re-evaluated (rule ids of the stage are kept)")):
+        run.rule(f"C01.{i}", d)
+    os_cls, ctx = check_plumbing(run, m)
+    from ..lib import view
 
     # ---------------- R4
     for name, (res, order) in TERMINALS.items():
